@@ -141,7 +141,7 @@ class BuildCheckpointState(BuildCheckpointStateModel):
         p.prove(z3.BoolVal("iteration" in d) if "iteration" not in d else to_int(d["iteration"]) == g["it"], f"{q}:C11:C12:payload carries the iteration")
         meta = d.get("meta")
         ok = isinstance(meta, PyDict) and "beta" in meta.d
-        p.prove(to_real(meta.d["beta"]) == g["beta"] if ok else z3.BoolVal(False), f"{q}:C11:C12:payload carries the temperature")
+        p.prove(to_real(meta.d["beta"]) == g["beta"] if ok else z3.BoolVal(False), f"{q}:C11:C12:C08:payload carries the exact temperature (a resumed run computes its next ratio from it)")
         h = d.get("history")
         is_copy = isinstance(h, Obj) and h is not g["hist"] and getattr(h, "copy_of", None) is g["hist"]
         p.prove(z3.BoolVal(is_copy), f"{q}:C11:C08:C18:payload history is a copy of the sampler's history, not the live object")
